@@ -238,3 +238,57 @@ Fixpoint positional_after_star_from (seen : bool) (l : list rawarg) : bool :=
   | _ :: r => positional_after_star_from seen r
   end.
 Definition positional_after_star (l : list rawarg) : bool := positional_after_star_from false l.
+
+(* ---- `**x` where x is a UNION of closed mappings (dict displays / TypedDicts with only
+   known keys), e.g.  kw = {"a": 1} if c else {"a": 1, "b": 2};  f( **kw).
+   preprocess_args merges the members key by key (signature.py, the KWARGS branch of step 1,
+   as repaired by "a key missing from one member of a union ... may be missing at runtime"):
+   the keys keep first-seen order (each member walked in reverse, like a single display),
+   and a key is `required` (definitely provided) iff EVERY member provides it.  No member
+   has unknown keys, so no star_kwargs results. *)
+Inductive rawarg_u :=
+| UPlain (r : rawarg)
+| UKwUnion (alts : list (list N)).
+
+Fixpoint union_keys (seen : list N) (alts : list (list N)) : list N :=
+  match alts with
+  | [] => seen
+  | alt :: rest =>
+      union_keys (fold_left (fun acc k => if memN k acc then acc else acc ++ [k]) (rev alt) seen) rest
+  end.
+
+Definition union_items (alts : list (list N)) : list (N * bool) :=
+  map (fun k => (k, forallb (fun alt => memN k alt) alts)) (union_keys [] alts).
+
+Definition add_kw_flag (kv : N * bool) (st : pstate) : option pstate :=
+  match kw_lookup (fst kv) (p_kws st) with
+  | Some _ => None
+  | None => Some (mkP (p_pos st) (p_star st) (p_kws st ++ [kv]) (p_skw st) (p_req st))
+  end.
+
+Fixpoint add_kw_flags (l : list (N * bool)) (st : pstate) : option pstate :=
+  match l with
+  | [] => Some st
+  | kv :: r => match add_kw_flag kv st with None => None | Some st' => add_kw_flags r st' end
+  end.
+
+Definition pre_step_u (st : pstate) (r : rawarg_u) : option pstate :=
+  match r with
+  | UPlain x => pre_step st x
+  | UKwUnion alts => add_kw_flags (union_items alts) st
+  end.
+
+Fixpoint pre_fold_u (st : pstate) (l : list rawarg_u) : option pstate :=
+  match l with
+  | [] => Some st
+  | r :: rest => match pre_step_u st r with None => None | Some st' => pre_fold_u st' rest end
+  end.
+
+Definition preprocess_u (l : list rawarg_u) : option actuals :=
+  match pre_fold_u (mkP [] false [] false false) l with
+  | None => None
+  | Some st => Some (mkActuals (p_pos st) (p_star st) (p_kws st) (p_skw st) (p_req st))
+  end.
+
+Definition call_ok_u (s : sig) (l : list rawarg_u) : bool :=
+  match preprocess_u l with None => false | Some a => accepts s a end.
